@@ -12,6 +12,7 @@ for s in $seeds; do
   prop=${s%%-*}; checks=$prop
   [ "$s" = "C10-b" ] && checks="C10 C18"
   [ "$s" = "C18-c" ] && checks="C18 C17"
+  [ "$s" = "C06-f" ] && checks="C06 C17"   # a probe left in flight / sent after the failed command returned: C17 owns the probe timing (slow-probe configs, select choice points)
   [ "$s" = "C10-e" ] && checks="C10 C12"   # needs overlapping snapshots: C10 quantifies over sequential histories, C12 has the overlapping pairs
   target=/repo
   if [ "${SEED_WT:-0}" = 1 ]; then
